@@ -217,7 +217,20 @@ def judge(flt: Any, flavour: str, badness: np.ndarray, failed: np.ndarray, p: fl
 # ------------------------------------------------------------------ end-to-end
 
 
-def e2e_judge(flavour: str, badness: np.ndarray, failed: np.ndarray, p: float) -> Judgement:
+def with_spare_filter(config: dict[str, Any]) -> dict[str, Any]:
+    """The same configuration with an unused filter listed BEFORE the cvar filter (filter indices shift by one)."""
+    import copy
+
+    cfg = copy.deepcopy(config)
+    spare = {"method": "sort-objective", "options": {"sort": [0], "first": 0, "last": 0}}
+    cfg["realization_filters"] = [spare, *cfg["realization_filters"]]
+    for key in ("objectives", "nonlinear_constraints"):
+        if key in cfg and "realization_filters" in cfg[key]:
+            cfg[key]["realization_filters"] = [i + 1 if i >= 0 else i for i in cfg[key]["realization_filters"]]
+    return cfg
+
+
+def e2e_judge(flavour: str, badness: np.ndarray, failed: np.ndarray, p: float, spare: bool = False) -> Judgement:
     """Reported value of the ranked function == CVaR_p tail mean of its empirical distribution."""
     from ropt.ensemble_evaluator import EnsembleEvaluator
 
@@ -236,7 +249,7 @@ def e2e_judge(flavour: str, badness: np.ndarray, failed: np.ndarray, p: float) -
     def fn(x: np.ndarray, r: int) -> np.ndarray:
         return table[r]
 
-    config = validate(build_config(flavour, n, p))
+    config = validate(with_spare_filter(build_config(flavour, n, p)) if spare else build_config(flavour, n, p))
     manager, _ = make_manager()
     evaluator = TableEvaluator(fn, n_obj, n_con)
     ens = EnsembleEvaluator(config, None, evaluator, manager)
@@ -311,6 +324,9 @@ def run_shard(shard: dict[str, Any]) -> core.ShardResult:
                 for p in grid:
                     j = e2e_judge(flavour, badness, failed, p)
                     rec.add(("e2e", flavour, n, mask, perm, p), lambda: case_of("e2e", flavour, n, perm, failed, p, seed), j)
+                    if p in (0.35, 1.0):
+                        j = e2e_judge(flavour, badness, failed, p, spare=True)
+                        rec.add(("e2e-spare", flavour, n, mask, perm, p), lambda: case_of("e2e-spare", flavour, n, perm, failed, p, seed), j)
         return rec.finish()
     grid = percentile_grid(n)
     filters = {p: make_filter(flavour, n, p) for p in grid}
@@ -345,8 +361,8 @@ def run_case(case: dict[str, Any]) -> Judgement:
     table = value_table(n, case["seed"])
     badness = table[list(case["perm"])]
     failed = np.array(case["failed"], dtype=bool)
-    if case["kind"] == "e2e":
-        return e2e_judge(case["flavour"], badness, failed, p)
+    if case["kind"] in ("e2e", "e2e-spare"):
+        return e2e_judge(case["flavour"], badness, failed, p, spare=case["kind"] == "e2e-spare")
     return judge(make_filter(case["flavour"], n, p), case["flavour"], badness, failed, p)
 
 
